@@ -349,10 +349,14 @@ def part_b(ctx, graphs):
                      matchings=matchings, theta=theta, norm=norm)
         # ---- Lloyd: every node that can reach a centre is assigned
         if n >= 2 and t % 3 == 0:
+            if t % 12 == 0:
+                # many isolated nodes (more requested centres than nodes with an edge is then likely)
+                iso = rng.random(n) < 0.6
+                off = off & ~iso[:, None] & ~iso[None, :]
             W = np.triu(off, 1) * rng.choice([0.5, 1.0, 2.0], size=(n, n))
             W = W + W.T
             C = _csr(W)
-            ratio = float(rng.choice([0.1, 0.3, 0.6]))
+            ratio = float(rng.choice([0.1, 0.3, 0.6, 0.9, 1.0]))
             measure = [None, 'unit', 'abs', 'inv', 'min'][int(rng.integers(5))]
             if t % 9 == 0 and C.nnz and measure in (None, 'abs', 'min'):
                 C.data[rng.integers(C.nnz)] = 0.0       # an explicitly stored zero-length edge
